@@ -545,6 +545,32 @@ def directed_xen_cb(R, dumps, xcs):
     return out
 
 
+def directed_formats(R, files):
+    """every format: open, revalidate both page maps (bits, find set/clear), read, free -- under the leak checker"""
+    out = []
+    for f in files:
+        for keep in (0, 1):
+            S = Scn("api", f)
+            S.add("new 0"); S.add("open 0 0 1 %s" % f.path)
+            S.add("get 0 memory.pagemap 1"); S.add("get 0 file.pagemap 2")
+            for l in ("bits 1 0 20", "fset 1 0", "fclr 1 0", "bits 2 0 20", "fset 2 0", "fclr 2 0", "read 0 1 0 8", "read 0 1 %d 16" % (5 * f.ps),
+                      "get 0 max_pfn", "get 0 file.format"):
+                S.add(l)
+            for l in (("drop 1", "drop 2", "free 0") if keep == 0 else ("free 0", "bits 1 0 20", "fset 2 0", "drop 2", "drop 1")):
+                S.add(l)
+            S.add("closefds 0")
+            out.append(S)
+    # translation set up on a context that has no dump yet (arch.name given by the application), then used
+    for arch in ("x86_64", "aarch64", "s390x", "ppc64", "ia32"):
+        S = Scn("api")
+        S.add("new 0"); S.add("setstr 0 arch.name %s" % arch); S.add("setnum 0 addrxlat.default.virt_bits 48")
+        S.add("setnum 0 addrxlat.default.pagesize 4096")
+        for l in ("ax 0 1 2", "read 0 2 4096 8", "axread 1 1 4096", "getpage 1 1 4096 3", "xop 1 2 2 4096 3", "get 0 memory.pagemap", "drop 3", "drop 1", "drop 2", "free 0"):
+            S.add(l)
+        out.append(S)
+    return out
+
+
 def known_scenarios(R, D):
     out = []
     S = Scn("known", D); S.known_key = "reopen-open-context"
@@ -778,6 +804,17 @@ def run(R):
         dumpgen.write_xc_core(x.path, [(q, 0x1000 + q) for q in pf], p2m=p2m, map_off=x.map_off)
         xcs.append(x)
     elfs += xcs
+    # the other formats: SADUMP (single partition / media), LKCD (raw and compressed), s390
+    others = []
+    for nm, wr in (("sadump-single", lambda q: dumpgen.c03_write_sadump(q, [1, 2, 5, 9], kind="single", max_mapnr=16, ram=[0, 1, 2, 3, 5, 6, 9])),
+                   ("sadump-media", lambda q: dumpgen.c03_write_sadump(q, [0, 3, 4], kind="media", max_mapnr=8, ram=[0, 1, 3, 4])),
+                   ("lkcd", lambda q: dumpgen.c03_write_lkcd(q, [0, 1, 2, 5, 6], compress=rng.choice([0, 1, 2]))),
+                   ("s390", lambda q: dumpgen.c03_write_s390(q))):
+        class F: pass
+        f = F(); f.path = R.path("c15-" + nm); f.ps = 4096; f.maxpfn = 16
+        wr(f.path)
+        others.append(f)
+    elfs += others
 
     # does the data of a page decode?  That is the decompressors' answer (external to the model): discovered once per dump by
     # reading every stored page in a fresh context; the generator's own expectation is kept where the two agree.
@@ -884,7 +921,7 @@ def run(R):
     napi = 40 if quick else 1500
     apis = [api_scenario(R, dumps + flat, elfs, rng.choice([15, 30, 60])) for _ in range(napi)]
     consume(run_scenarios(R, exe, apis), with_model=False)
-    consume(run_scenarios(R, exe, directed_scenarios(R, dumps) + directed_xen_cb(R, dumps, xcs)), with_model=False)
+    consume(run_scenarios(R, exe, directed_scenarios(R, dumps) + directed_xen_cb(R, dumps, xcs) + directed_formats(R, elfs + dumps[:1] + flat[:1])), with_model=False)
     consume(run_scenarios(R, exe, known_scenarios(R, dumps[0])), with_model=False)
 
     # ---- model: traces of the forced paths, ledger over every intercepted trace
